@@ -63,6 +63,7 @@ HInit(d) ==
     term     |-> "none",                           \* first terminal status
     pauseReq |-> FALSE, cancelReq |-> FALSE,
     pauseCause |-> FALSE,
+    resumed  |-> FALSE,                            \* the last call was an accepted resume
     rerun    |-> FALSE,                            \* an accepted rerun happened (C17 owns what follows)
     retried  |-> FALSE,                            \* this step's completion was retried
     compl    |-> << >>,                            \* this step's completion: [] or [t, r, st, dec]
@@ -118,7 +119,7 @@ TaskResult(d, step) == IF HasItems(d, step.call.task) THEN step.call.acc ELSE st
 HStepCore(d, h, prev, step) ==
   LET c   == step.call
       obs == step.obs
-      h0  == [h EXCEPT !.retried = FALSE, !.compl = << >>]
+      h0  == [h EXCEPT !.retried = FALSE, !.compl = << >>, !.resumed = FALSE]
   IN
   CASE c.op = "new" ->
          IF obs.wf \in Abended THEN [h0 EXCEPT !.doomed = TRUE]
@@ -127,6 +128,7 @@ HStepCore(d, h, prev, step) ==
     [] c.op = "req" ->
          IF step.ret # "ok" THEN h0
          ELSE [h0 EXCEPT !.started   = @ \/ c.st = "running",
+                         !.resumed   = h.pauseReq /\ c.st \in {"resuming", "running"},
                          !.pauseReq  = (@ \/ c.st \in {"pausing", "paused"}) /\ c.st \notin {"resuming", "running"},
                          !.pauseCause = (@ \/ c.st \in {"pausing", "paused"}) /\ c.st \notin {"resuming", "running"},
                          !.cancelReq = @ \/ c.st \in {"canceling", "canceled"},
@@ -175,6 +177,13 @@ C01_offer_justified(d, h1, step) ==
       Cardinality({i \in 1..Len(step.obs.offers) :
                      step.obs.offers[i].id = t /\ ~OpenRec(step.obs, t, step.obs.offers[i].route)})
         <= h1.tok[t]
+(* nothing lost: while the workflow is running every justified, not yet started execution is *)
+(* on offer (this is also "resume continues with precisely the work that was held back")      *)
+NewOffers(step, t) == {i \in 1..Len(step.obs.offers) :
+                         step.obs.offers[i].id = t /\ ~OpenRec(step.obs, t, step.obs.offers[i].route)}
+C01_offer_complete(d, h1, step) ==
+  (step.obs.q /\ step.obs.wf \in {"running", "resuming"} /\ ~h1.rerun) =>
+     \A t \in TaskNames(d) : Cardinality(NewOffers(step, t)) = h1.tok[t]
 C01_offer_known(d, step) ==
   \A i \in 1..Len(step.obs.offers) : step.obs.offers[i].id \in TaskNames(d)
 C01_start_consumes(d, h0, prev, step) ==
@@ -263,6 +272,28 @@ C07_unreachable(d, h1, step) ==
 C07_not_succeeded(d, h1, step) ==
   (step.obs.wf = "succeeded" /\ ~h1.rerun) => PartialJoins(d, h1) = {}
 
+(* C09: pause holds everything back and reports paused exactly when drained. *)
+C09_hold(step) == (step.obs.q /\ step.obs.wf \in {"pausing", "paused"}) => step.obs.offers = << >>
+C09_paused_when_drained(h1, step) ==
+  (h1.pauseReq /\ step.obs.dorm = << >>) =>
+     /\ step.obs.wf \notin {"running", "resuming", "succeeded"}
+     /\ step.obs.wf \in {"pausing", "paused"} => (step.obs.wf = "paused" <=> step.obs.infl = << >>)
+C09_resume_work(d, h0, h1, step) ==
+  (step.obs.q /\ h0.resumed /\ step.obs.wf \in {"running", "resuming"} /\ ~h1.rerun) =>
+     \A t \in TaskNames(d) : Cardinality(NewOffers(step, t)) = h1.tok[t]
+
+(* C10: cancellation stops scheduling and ends in canceled. *)
+C10_no_offer(h1, step) == (h1.cancelReq /\ step.obs.q) => step.obs.offers = << >>
+C10_status(h1, step) ==
+  h1.cancelReq =>
+     \/ step.obs.wf = "canceling" /\ step.obs.infl # << >>
+     \/ step.obs.wf = "canceled" /\ step.obs.infl = << >>
+     \/ step.obs.wf = "failed" /\ HasErr(step.obs, "expr")
+C10_output(d, prev, step) ==
+  (step.call.op = "render" /\ prev.wf = "canceled") =>
+     /\ step.obs.wf = "canceled"
+     /\ (Len(d.output) > 0 /\ NewErrs(prev, step.obs, "expr") = {}) => step.obs.hasout
+
 (* C15/C11 (soundness half): no internal error escapes an API call. *)
 C15_internal_error(step) == step.ret = "ok" \/ step.ret \in Rejections
 
@@ -290,6 +321,7 @@ FP(prop, name, ok) == IF ok THEN {} ELSE {<<prop, name>>}
 
 Failing(d, h0, h1, prev, step) ==
   FP("C01", "C01_offer_justified", C01_offer_justified(d, h1, step)) \cup
+  FP("C01", "C01_offer_complete",  C01_offer_complete(d, h1, step)) \cup
   FP("C01", "C01_offer_known",     C01_offer_known(d, step)) \cup
   FP("C01", "C01_start_consumes",  C01_start_consumes(d, h0, prev, step)) \cup
   FP("C01", "C01_success_exact",   C01_success_exact(d, h1, step)) \cup
@@ -309,6 +341,12 @@ Failing(d, h0, h1, prev, step) ==
   FP("C07", "C07_once",            C07_once(d, h1, step)) \cup
   FP("C07", "C07_unreachable",     C07_unreachable(d, h1, step)) \cup
   FP("C07", "C07_not_succeeded",   C07_not_succeeded(d, h1, step)) \cup
+  FP("C09", "C09_hold",            C09_hold(step)) \cup
+  FP("C09", "C09_paused_when_drained", C09_paused_when_drained(h1, step)) \cup
+  FP("C09", "C09_resume_work",     C09_resume_work(d, h0, h1, step)) \cup
+  FP("C10", "C10_no_offer",        C10_no_offer(h1, step)) \cup
+  FP("C10", "C10_status",          C10_status(h1, step)) \cup
+  FP("C10", "C10_output",          C10_output(d, prev, step)) \cup
   FP("C15", "C15_internal_error",  C15_internal_error(step)) \cup
   FP("C18", "C18_seq_prefix",      C18_seq_prefix(prev, step)) \cup
   FP("C18", "C18_ctxs_prefix",     C18_ctxs_prefix(prev, step)) \cup
